@@ -87,25 +87,24 @@ func equalInts(a, b []int) bool {
 	return true
 }
 
-// bands checks that every weight the ranker assigns at this position lies in its designed band.
+// bands checks that every weight the ranker assigns at this position lies in its band: quiet weights (the moves
+// of the quiet generator, ranked the way the picker ranks them) strictly between the capture bands and above the
+// duplicate sentinel, noisy weights inside the good or the bad capture band. How wide the quiet band is inside
+// those limits is the design's business (the single counters are checked against heur.MaxHistory elsewhere).
 func bands(w *world) error {
-	for _, m := range eng.Generated(w.aux, w.b) {
-		captured := w.b.SquaresToPiece[w.b.CaptureSq(m)]
-		if captured == chess.NoPiece && m.Promo() == chess.NoPiece {
-			q := w.ranker.RankQuiet(m, w.b, w.hstack)
-			if q < -3*heur.MaxHistory || q > 3*heur.MaxHistory {
-				return fmt.Errorf("quiet weight %d of %v leaves [-3*MaxHistory, 3*MaxHistory] in %s", q, m, w.b.FEN())
-			}
-			if q >= heur.Captures || q <= -heur.Captures || q <= -heur.HashMove+1 {
-				return fmt.Errorf("quiet weight %d of %v crosses into a capture band / the duplicate sentinel", q, m)
-			}
-		} else {
-			n := w.ranker.RankNoisy(m, w.b, w.hstack)
-			good := n >= heur.Captures && n < heur.HashMove
-			bad := n <= -heur.Captures && n > -heur.HashMove+1
-			if !good && !bad {
-				return fmt.Errorf("noisy weight %d of %v outside the capture bands", n, m)
-			}
+	noisy, quiet := eng.GeneratedHalves(w.aux, w.b)
+	for _, m := range quiet {
+		q := w.ranker.RankQuiet(m, w.b, w.hstack)
+		if q >= heur.Captures || q <= -heur.Captures || q <= -heur.HashMove+1 {
+			return fmt.Errorf("quiet weight %d of %v crosses into a capture band / the duplicate sentinel in %s", q, m, w.b.FEN())
+		}
+	}
+	for _, m := range noisy {
+		n := w.ranker.RankNoisy(m, w.b, w.hstack)
+		good := n >= heur.Captures && n < heur.HashMove
+		bad := n <= -heur.Captures && n > -heur.HashMove+1
+		if !good && !bad {
+			return fmt.Errorf("noisy weight %d of %v outside the capture bands", n, m)
 		}
 	}
 	return nil
